@@ -30,6 +30,22 @@ PROPS = {
                    'thread-schedule clause of the property: no thread model in the verifier',
                    'batch_merkle_tree.rs'],
     ),
+    'C04': dict(
+        title='Fiat-Shamir challenges depend on the whole statement and prior transcript',
+        design_ref='DESIGN.md section 4 / C04',
+        vspecs=['contracts/C04/challenger.vspec', 'contracts/C04/transcript.vspec'],
+        level_text='Unbounded deductive proof (Verus/Z3) that (i) every Challenger method implements the overwrite-mode duplex sponge state machine '
+                   '(absorbing invalidates buffered outputs; a challenge is drawn only after pending inputs were duplexed), and (ii) get_challenges / '
+                   'fri_challenges / FriParams::observe / FriConfig::observe compute exactly the transcript function written in the order of the property: '
+                   'FRI+degree parameters, circuit digest, public-input hash, wires cap -> betas, gammas [deltas] -> zs cap -> alphas -> quotient cap -> zeta '
+                   '-> openings -> alpha -> per commit-phase cap (cap, then beta) -> final polynomial -> PoW witness -> PoW response -> query indices. '
+                   'Every challenge is therefore a named function of every message absorbed before it; dropping or reordering an absorption fails a postcondition.',
+        level_note='Trusted: Verus+Z3; the sponge permutation is uninterpreted (that altering an absorbed element changes later challenges is the '
+                   'random-oracle reading of the permutation, outside the family); FriReductionStrategy::serialize, to_fri_openings, Vec::drain/iter::repeat '
+                   'adaptors assumed. Not covered: the PROVER transcript in prove_with_partition_witness (rayon/timing macros; agreement with the verifier '
+                   'is what the positive tests establish), RecursiveChallenger, STARK get_challenges.',
+        remainder=['prover-side transcript (plonk/prover.rs, fri/prover.rs)', 'RecursiveChallenger and in-circuit get_challenges', 'starky get_challenges'],
+    ),
     'C05': dict(
         title='FRI opening proofs attest only true evaluations of low-degree polynomials',
         design_ref='DESIGN.md section 4 / C05',
@@ -48,14 +64,15 @@ PROPS = {
     'C03': dict(
         title='Accepted proofs are bound to each of their elements and to their circuit',
         design_ref='DESIGN.md section 4 / C03',
-        vspecs=['contracts/C03/plonk_verifier.vspec', 'contracts/C05/fri_verifier.vspec', 'contracts/C18/fri_shape.vspec', 'contracts/C12/merkle_verify.vspec'],
+        vspecs=['contracts/C03/plonk_verifier.vspec', 'contracts/C05/fri_verifier.vspec', 'contracts/C18/fri_shape.vspec', 'contracts/C12/merkle_verify.vspec',
+                'contracts/C04/transcript.vspec', 'contracts/C04/challenger.vspec'],
         level_text='Unbounded deductive proof (Verus/Z3) of the acceptance skeleton of the real verifier code: verify() returns Ok only if shape validation '
                    'pinned every vector length to the circuit, the vanishing identity held for EVERY challenge index on the proof\'s own openings, '
                    'challenges were derived from the public-input hash, the VERIFIER DATA\'s circuit digest and the common data, and the FRI opening '
                    'proof was verified (every query round, every Merkle path, every fold, final polynomial, PoW, round count) against the caps '
                    '[verifier_data.constants_sigmas_cap, wires_cap, zs_cap, quotient_cap] in that order. A verifier that stops checking one of these '
                    'fails a named postcondition.',
-        level_note='Trusted: Verus+Z3; algebra callees as uninterpreted functions (T10); get_challenges contract assumed here and carried by C04; circuit data '
+        level_note='Trusted: Verus+Z3; algebra callees as uninterpreted functions (T10); get_challenges proved against the transcript specification (C04 units, same run); circuit data '
                    'satisfy common_ok. The step from "every element is read by a check or absorbed" to "every change is rejected" is the '
                    'soundness/collision argument (outside the family). Compressed proofs (decompress path, HashMap code) not covered.',
         remainder=['compressed proofs: CompressedFriProof::decompress, get_inferred_elements (iterator/HashMap code outside the subset)',
